@@ -5,6 +5,12 @@ Tie to the code: REAL ROI-less `DynamicObject2D` lists go through the real `get_
 lists go to the Lean model (`PEval.Model.Classification`), pairs are compared by harness id in order,
 counts exactly, scores within 1e-9 (inf / nan exactly).
 
+Manager level (kind 'manager'): the same statement where a user observes it -- a real `PerceptionEvaluationManager`
+(`evaluation_task="classification2d"`, no dataset) is given hand-made frames through `add_frame_result` and asked for
+`get_scene_result()`; the oracle reads `frame_result.object_results` and the `ClassificationMetricsScore` of every frame's
+and of the scene's `MetricsScore` (`MetricsScore.evaluate_classification`); the Lean model pairs and scores every frame and
+scores the pooled scene.
+
 The oracle is independent of the model: pairing rules re-derived from uuids / labels / cameras, one-to-one
 use, the maximum number of equally-labelled pairs by brute force over all one-to-one same-camera pairings,
 metric formulas recomputed in Fractions and their ranges.
@@ -31,7 +37,11 @@ RULE = (
     "(estimate label x {ground-truth label, no ground truth} = 12 result types, so every listing order of every "
     "multiset) x all 7 non-empty target subsets, plus seeded lists of <= 8 results over 5 labels with unpaired "
     "ground truths and shuffled target lists. "
-    "non-trivial = both lists non-empty; distinct = distinct canonical case"
+    "manager level (kind 'manager'): every label assignment over 3 labels for (n_est, n_gt) <= 2+2 as a one-frame scene and as a "
+    "two-frame scene (second frame perfect), both label families, both uuid-first settings, target lists of 2 and 3 labels; "
+    "seeded scenes of 1-4 frames with up to 5+5 objects per frame in 1-3 of 4 camera frames (incl. CAM_TRAFFIC_LIGHT), 1-4 target "
+    "labels, objects with labels outside the target list, empty sides / empty frames, every 8th scene perfect. "
+    "non-trivial = both lists non-empty (manager: in some frame); distinct = distinct canonical case"
 )
 THEOREMS = [
     "PEval.C11." + t
@@ -42,6 +52,8 @@ THEOREMS = [
         "tlr_uuid_first_iff_same_uuid", "tlr_correct_pairs_maximum", "tp_le_num_gt", "metrics_def",
         "metrics_in_unit", "metrics_in_unit_results", "metrics_all_one", "metrics_all_one_results",
         "summarize_def", "summarize_in_unit", "summarize_all_one",
+        # manager level: a scene pools the frames
+        "pooled_counts", "scene_counts_sum", "countTp_sceneFrames_le", "scene_in_unit", "scene_all_one",
         # decision tables of the pairing kernels extracted from the real code (harness/dt_c11.py), regenerated on every run
         "pair_table_check", "pair_code_table_eq_model", "pair_code_table_eq_skel", "pair_code_table_eq_model_on_index",
         "table_generic_1x1", "table_tlr_1x1",
@@ -63,6 +75,13 @@ TRUSTED = [
     "divide_objects / divide_objects_to_num (objects_filter.py) are used by the harness to build the per-label buckets "
     "exactly as PerceptionFrameResult.evaluate_frame / get_scene_result do; the Lean model takes the buckets as inputs, "
     "the ORACLE recomputes them from the result list (est label, else ground-truth label) and the ground truths",
+]
+TRUSTED += [
+    "kind 'manager': a manager built with dataset_paths=[] (nothing is loaded); matplotlib's figure creation is short-cut (all "
+    "managers of the process share one figure; the visualizer is never used); which objects reach the pairing is taken from the "
+    "documented meaning of target_labels (label in the list; the cases use neither 'unknown' nor the FP label outside the list); "
+    "the scene's per-label result lists are not observable, the harness pools the frames' lists the way get_scene_result does "
+    "([[]] + one list per frame, ground-truth numbers summed) for the model, the ORACLE counts from the pairs",
 ]
 ASSUMPTIONS = [
     "objects are ROI-less DynamicObject2D, distinct Python objects; uuids non-null and unique per side and camera "
@@ -268,6 +287,164 @@ def _random_divide(rng, nmax):
     return _dcase(fam, rs, tg, split=rng.randint(0, 3), xg=xg)
 
 
+# ----------------------------------------------------------------------------- manager level (kind 'manager')
+# The classification path as a user drives it: PerceptionEvaluationManager(evaluation_task="classification2d") built without a
+# dataset, add_frame_result per frame (filtering by target label, get_object_results, PerceptionFrameResult.evaluate_frame ->
+# MetricsScore.evaluate_classification), then get_scene_result (the frames pooled).
+# case = {"kind": "manager", "fam", "uf", "targets": [...], "cams": [...], "frames": [{"ests": [[label, cam, uuid]...], "gts": [...]}...]}
+
+NON_TARGET = {"tl": ["green_left", "red_right", "red_left", "green_straight"], "aw": ["truck", "bicycle", "motorbike", "animal"]}
+
+
+def _mcase(fam, uf, targets, cams, frames):
+    return {"kind": "manager", "fam": fam, "uf": bool(uf), "targets": list(targets), "cams": list(cams),
+            "frames": [{"ests": [list(o) for o in f["ests"]], "gts": [list(o) for o in f["gts"]]} for f in frames]}
+
+
+def _kept(case, specs):
+    """indices of the objects the manager evaluates: those whose label is a target label (the cases use neither the
+    'unknown' nor the FP label outside the target list, so this is the whole filtering rule)"""
+    T = set(case["targets"])
+    return [i for i, o in enumerate(specs) if o[0] in T]
+
+
+def _random_scene(rng, perfect=False):
+    fam = rng.choice(["tl", "tl", "aw"])
+    pool = (TL if fam == "tl" else AW)[:4]
+    targets = rng.sample(pool, rng.randint(1, 4))
+    labs = list(targets) + ([rng.choice(NON_TARGET[fam])] if rng.random() < 0.3 else [])
+    cams = rng.sample(CAMS, rng.choice([1, 2, 2, 3]))
+    nu = rng.randint(2, 6)
+    frames = []
+    for _ in range(rng.choice([1, 2, 2, 3, 4])):
+        def side(n):
+            used, objs = {}, []
+            for _ in range(n):
+                c = rng.choice(cams)
+                pl = [u for u in UU[:nu] if u not in used.setdefault(c, set())]
+                if pl:
+                    u = rng.choice(pl)
+                    used[c].add(u)
+                    objs.append([rng.choice(labs), c, u])
+            return objs
+        r = rng.random()
+        gts = side(0 if r < 0.08 else rng.randint(1, 5))
+        if perfect:
+            ests = [list(o) for o in gts if o[0] in targets]
+            rng.shuffle(ests)
+        elif r > 0.92:
+            ests = []
+        elif rng.random() < 0.5:  # mostly right: the ground truths with a few labels / uuids changed, some dropped, some added
+            ests = [list(o) for o in gts if rng.random() < 0.85]
+            for o in ests:
+                if rng.random() < 0.3:
+                    o[0] = rng.choice(labs)
+            rng.shuffle(ests)
+            keys = {(o[1], o[2]) for o in ests}
+            for o in side(rng.randint(0, 2)):
+                if (o[1], o[2]) not in keys:
+                    keys.add((o[1], o[2]))
+                    ests.append(o)
+        else:
+            ests = side(rng.randint(1, 5))
+        frames.append({"ests": ests, "gts": gts})
+    return _mcase(fam, rng.random() < 0.5, targets, cams, frames)
+
+
+def _manager_cases(rng, tier):
+    cases = []
+    # every label assignment of the small pairing sweeps as a one-frame scene, and the same frame twice as a two-frame scene
+    for fam, labs, ufs in (("tl", TL[:3], (False, True)), ("aw", AW[:3], (False,))):
+        for c in _sweep(rng, 2, labs, fam, ufs, 1):
+            fr = {"ests": c["ests"], "gts": c["gts"]}
+            k = len(cases)
+            cases.append(_mcase(fam, c["uf"], labs if k % 3 else labs[:2], CAMS[:2], [fr] if k % 2 else [fr, {"ests": c["gts"], "gts": c["gts"]}]))
+    n = 1500 if tier == "quick" else 20000
+    for i in range(n):
+        cases.append(_random_scene(rng, perfect=(i % 8 == 0)))
+    return cases
+
+
+_MG = {}
+
+
+def _manager(case):
+    """a newly constructed real manager without a dataset.  Only matplotlib's figure creation (the visualizer is never used
+    here) is short-cut: all managers of this process share one figure."""
+    import tempfile
+
+    import matplotlib.pyplot as plt
+    from perception_eval.config import PerceptionEvaluationConfig
+    from perception_eval.manager import PerceptionEvaluationManager
+
+    if "tmp" not in _MG:
+        _MG["tmp"] = tempfile.mkdtemp(prefix="c11_")
+    cfg = PerceptionEvaluationConfig(
+        dataset_paths=[], frame_id=list(case["cams"]), result_root_directory=_MG["tmp"],
+        evaluation_config_dict={"evaluation_task": "classification2d", "target_labels": list(case["targets"]),
+                                "label_prefix": "traffic_light" if case["fam"] == "tl" else "autoware",
+                                "merge_similar_labels": False, "allow_matching_unknown": True,
+                                "uuid_matching_first": case["uf"]})
+    orig = plt.subplots
+    if "fig" not in _MG:
+        _MG["fig"] = orig()
+    plt.subplots = lambda *a, **k: _MG["fig"]
+    try:
+        return PerceptionEvaluationManager(cfg)
+    finally:
+        plt.subplots = orig
+
+
+def _score_out(M, ms):
+    """the classification part of a MetricsScore"""
+    o = {"n_scores": len(ms.classification_scores)}
+    if ms.classification_scores:
+        sc = ms.classification_scores[-1]
+        o["accs"] = [_acc(a) for a in sc.accuracies]
+        o["labels"] = [[x.value for x in a.target_labels] for a in sc.accuracies]
+        o["summary"] = [_fl(x) for x in sc._summarize()]
+    return o
+
+
+def _run_manager(case):
+    M = _mods()
+    from perception_eval.common.dataset import FrameGroundTruth
+    from perception_eval.evaluation.result.perception_frame_config import CriticalObjectFilterConfig, PerceptionPassFailConfig
+
+    mk, Label, tab = M["DynamicObject2D"], M["Label"], M["lab"][case["fam"]]
+    try:
+        m = _manager(case)
+        cfg = m.evaluator_config
+        crit = CriticalObjectFilterConfig(cfg, list(case["targets"]))
+        pf = PerceptionPassFailConfig(cfg, list(case["targets"]))
+        out = {"frames": [], "targets": [t.value for t in m.target_labels]}
+        for k, fr in enumerate(case["frames"]):
+            ests = [mk(100 + k, M["frame"][c], 1.0, Label(tab[l], l), None, u) for (l, c, u) in fr["ests"]]
+            gts = [mk(100 + k, M["frame"][c], 1.0, Label(tab[l], l), None, u) for (l, c, u) in fr["gts"]]
+            eid = {id(o): i for i, o in enumerate(ests)}
+            gid = {id(o): i for i, o in enumerate(gts)}
+
+            def rid(r):
+                g = r.ground_truth_object
+                return [eid.get(id(r.estimated_object), -1), None if g is None else gid.get(id(g), -1)]
+
+            r = m.add_frame_result(100 + k, FrameGroundTruth(100 + k, str(k), list(gts)), list(ests), crit, pf)
+            fo = {"pairs": [rid(x) for x in r.object_results], "correct": [bool(x.is_label_correct) for x in r.object_results],
+                  "gts_kept": [gid.get(id(g), -1) for g in r.frame_ground_truth.objects]}
+            fo.update(_score_out(M, r.metrics_score))
+            # the per-label buckets as the manager forms them (evaluate_frame / get_scene_result): TRUSTED divide_objects(_to_num)
+            d = M["divide_objects"](r.object_results, m.target_labels)
+            n = M["divide_objects_to_num"](r.frame_ground_truth.objects, m.target_labels)
+            fo["buckets"] = [[rid(x) for x in d[t]] for t in m.target_labels]
+            fo["bucket_num_gt"] = [n[t] for t in m.target_labels]
+            out["frames"].append(fo)
+        out["n_frame_results"] = len(m.frame_results)
+        out["scene"] = _score_out(M, m.get_scene_result())
+        return out
+    except Exception as e:
+        return {"err": type(e).__name__}
+
+
 def corpus():
     g, r, y = "green", "red", "yellow"
     f, b, t = CAMS[0], CAMS[1], CAMS[2]
@@ -313,6 +490,18 @@ def corpus():
     cs.append(_dcase("tl", [[r, y], [y, g], [r, None], [g, r], [y, y]], [g], xg=[g, r]))
     cs.append(_dcase("aw", [["bus", None], ["car", None]], ["car"]))
     cs.append(_dcase("aw", [["car", "car"]], ["bus", "car", "pedestrian"], xg=["bus"]))
+    # manager level: a perfect two-frame scene (label stage steals the uuid partners), a scene with wrong labels, unpaired objects,
+    # an empty frame and a label outside the target list, a generic scene with an FP tail
+    cs.append(_mcase("tl", False, [g, r, y], [f, b], [
+        {"ests": [[g, f, "a"], [r, f, "b"], [y, b, "c"]], "gts": [[r, f, "a"], [g, f, "b"], [y, b, "c"]]},
+        {"ests": [[g, f, "a"]], "gts": [[g, f, "a"]]}]))
+    cs.append(_mcase("tl", True, [g, r], [f, b], [
+        {"ests": [[g, f, "a"], [r, f, "b"], [y, b, "c"]], "gts": [[r, f, "a"], [g, f, "b"], [y, b, "c"]]},
+        {"ests": [], "gts": [[g, f, "a"]]}, {"ests": [[r, b, "d"]], "gts": []},
+        {"ests": [[g, f, "a"], [g, b, "a"]], "gts": [[g, b, "a"], [r, f, "a"], ["green_left", f, "e"]]}]))
+    cs.append(_mcase("aw", False, ["car", "bus"], [f, t], [
+        {"ests": [["car", f, "a"], ["bus", f, "c"], ["truck", f, "d"]], "gts": [["car", f, "a"], ["bus", f, "b"]]},
+        {"ests": [["car", f, "a"], ["bus", t, "c"]], "gts": [["bus", f, "a"]]}]))
     return cs
 
 
@@ -438,6 +627,7 @@ def generate(rng, tier):
         cases.append(_random_case(rng, nmax))
     for _ in range(n_mal):
         cases.append(_random_case(rng, 5, malformed=True))
+    cases += _manager_cases(rng, tier)
     return cases
 
 
@@ -574,6 +764,8 @@ def _run_divide(case):
 def run_impl(case):
     if case.get("kind") == "divide":
         return _run_divide(case)
+    if case.get("kind") == "manager":
+        return _run_manager(case)
     M = _mods()
     ests, gts = _build(case)
     eid = {id(o): i for i, o in enumerate(ests)}
@@ -610,9 +802,69 @@ def _jobj(i, spec, fam):
     return {"id": i, "uuid": spec[2], "tl": fam == "tl", "label": spec[0], "frame": spec[1]}
 
 
+def _manager_requests(case, out):
+    """one pairing + scoring request per frame (the objects the manager evaluates, the frame's real buckets), then one scoring
+    request for the scene: the frames' buckets pooled the way get_scene_result does ([[]] first), objects under scene-wide ids"""
+    fam = case["fam"]
+    reqs, all_e, all_g = [], [], []
+    nt = len(case["targets"])
+    pooled = [[[]] for _ in range(nt)]
+    pooled_n = [0] * nt
+    ok = "frames" in out and len(out["frames"]) == len(case["frames"])
+    for k, fr in enumerate(case["frames"]):
+        ke, kg = _kept(case, fr["ests"]), _kept(case, fr["gts"])
+        fo = out["frames"][k] if ok else {}
+        buckets = [{"frames": [b], "num_gt": n} for b, n in zip(fo.get("buckets", []), fo.get("bucket_num_gt", []))]
+        reqs.append({"op": "case", "fpv": False, "uf": case["uf"], "ests": [_jobj(i, fr["ests"][i], fam) for i in ke],
+                     "gts": [_jobj(j, fr["gts"][j], fam) for j in kg], "buckets": buckets})
+        all_e += [_jobj(100 * k + i, fr["ests"][i], fam) for i in ke]
+        all_g += [_jobj(100 * k + j, fr["gts"][j], fam) for j in kg]
+        for t in range(min(nt, len(buckets))):
+            pooled[t].append([[100 * k + i, None if j is None else 100 * k + j] for i, j in fo["buckets"][t]])
+            pooled_n[t] += fo["bucket_num_gt"][t]
+    if ok:
+        reqs.append({"op": "buckets", "ests": all_e, "gts": all_g,
+                     "buckets": [{"frames": pooled[t], "num_gt": pooled_n[t]} for t in range(nt)]})
+    return reqs
+
+
+def _compare_manager(case, out, resps):
+    if "err" in out:
+        errs = [r["err"] for r in resps if "err" in r]
+        return None if errs and errs[0] == out["err"] else f"impl raised {out['err']}, model {errs[:1] or 'ok'}"
+    nf = len(case["frames"])
+    for k in range(nf):
+        r, fo = resps[k], out["frames"][k]
+        if "err" in r:
+            return f"frame {k}: impl ok, model {r['err']}"
+        if fo["pairs"] != r["pairs"]:
+            return f"frame {k}: pairs: impl {fo['pairs']} != model {r['pairs']}"
+        d = _compare_scores(f"frame {k}", fo, r)
+        if d:
+            return d
+    return _compare_scores("scene", out["scene"], resps[nf])
+
+
+def _compare_scores(name, so, r):
+    if so.get("n_scores") != 1:
+        return f"{name}: {so.get('n_scores')} classification scores instead of one"
+    if len(so["accs"]) != len(r["buckets"]):
+        return f"{name}: {len(so['accs'])} per-label accuracies, model {len(r['buckets'])}"
+    for lab, a, m in zip(so["labels"], so["accs"], r["buckets"]):
+        d = _acc_diff(f"{name}.accuracies{lab}", a, m)
+        if d:
+            return d
+    for k, a, m in zip(("accuracy", "precision", "recall", "f1"), so["summary"], r["summary"]):
+        if not _score_eq(a, m):
+            return f"{name}.summary.{k}: impl {a} != model {m}"
+    return None
+
+
 def model_requests(case, out):
     if case.get("kind") == "divide":
         return []  # the oracle is the reference for this kind (the Lean model takes the buckets as given)
+    if case.get("kind") == "manager":
+        return _manager_requests(case, out)
     req = {"op": "case", "fpv": case["task"].startswith("fp_validation"), "uf": case["uf"],
            "ests": [_jobj(i, s, case["fe"]) for i, s in enumerate(case["ests"])],
            "gts": [_jobj(i, s, case["fg"]) for i, s in enumerate(case["gts"])],
@@ -637,6 +889,8 @@ def _acc_diff(name, a, m):
 
 
 def compare(case, out, resps):
+    if case.get("kind") == "manager":
+        return _compare_manager(case, out, resps)
     r = resps[0]
     if "err" in out or "err" in r:
         return None if out.get("err") == r.get("err") else f"impl {out.get('err', 'ok')} != model {r.get('err', 'ok')}"
@@ -780,7 +1034,93 @@ def _chk_buckets(case, E, G, out):
     return None
 
 
+def _oracle_manager(case, out):
+    """the property evaluated on what the manager holds: frame_result.object_results of every frame (pairing statement on the
+    objects with target labels), the classification scores of every frame and of the scene (counting definitions over the
+    pairs, per label and summarised; in [0,1] when defined; all 1 for a perfect frame / scene)"""
+    if "err" in out:
+        return f"the manager raised {out['err']} on unique non-null uuids"
+    fam = case["fam"]
+    c2 = {"fe": fam, "fg": fam, "uf": case["uf"], "targets": case["targets"]}
+    T = list(case["targets"])
+    if out.get("targets") != T:
+        return f"harness: manager target labels {out.get('targets')} != {T}"
+    if out.get("n_frame_results") != len(case["frames"]):
+        return f"{out.get('n_frame_results')} frame results for {len(case['frames'])} frames"
+    pooled = {t: [0, 0, 0] for t in T}  # results, ground truths, label-correct results
+    all_perfect = True
+    for k, (fr, fo) in enumerate(zip(case["frames"], out["frames"])):
+        ke, kg = _kept(case, fr["ests"]), _kept(case, fr["gts"])
+        E, G = [fr["ests"][i] for i in ke], [fr["gts"][j] for j in kg]
+        pe, pg = {i: a for a, i in enumerate(ke)}, {j: a for a, j in enumerate(kg)}
+        for i, j in fo["pairs"]:
+            if i not in pe or (j is not None and j not in pg):
+                return f"frame {k}: result ({i},{j}) uses an object that is not among the frame's objects with a target label"
+        pairs = [[pe[i], None if j is None else pg[j]] for i, j in fo["pairs"]]
+        d = _oracle_pairing(c2, E, G, pairs)
+        if d:
+            return f"frame {k}: {d}"
+        if sorted(fo["gts_kept"]) != kg:
+            return f"frame {k}: ground truths evaluated {sorted(fo['gts_kept'])}, those with a target label are {kg}"
+        le, lg = [s[0] for s in E], [s[0] for s in G]
+        flags = [j is not None and le[i] == lg[j] for i, j in pairs]
+        if flags != fo["correct"]:
+            return f"frame {k}: is_label_correct {fo['correct']} expected {flags}"
+        per = {t: [0, 0, 0] for t in T}
+        for (i, j), ok in zip(pairs, flags):
+            per[le[i]][0] += 1
+            per[le[i]][2] += int(ok)
+        for x in lg:
+            per[x][1] += 1
+        d = _chk_scores(f"frame {k}", fo, T, per)
+        if d:
+            return d
+        perfect = len(G) > 0 and len(pairs) == len(G) and all(flags)
+        all_perfect = all_perfect and (perfect or (not E and not G))
+        if perfect and fo["summary"] != [1.0, 1.0, 1.0, 1.0]:
+            return f"frame {k}: every ground truth paired with an equally-labelled estimate, nothing else reported, but summary = {fo['summary']}"
+        for t in T:
+            for q in range(3):
+                pooled[t][q] += per[t][q]
+    d = _chk_scores("scene", out["scene"], T, pooled)
+    if d:
+        return d
+    if all_perfect and sum(v[1] for v in pooled.values()) > 0:
+        if out["scene"]["summary"] != [1.0, 1.0, 1.0, 1.0]:
+            return f"every frame perfect but the scene summary = {out['scene']['summary']}"
+        for t, a in zip(T, out["scene"]["accs"]):
+            if pooled[t][1] > 0 and [a[x] for x in ("accuracy", "precision", "recall", "f1")] != [1.0] * 4:
+                return f"every frame perfect but the scene scores of {t} are {a}"
+    return None
+
+
+def _chk_scores(name, so, T, per):
+    """one ClassificationMetricsScore against the counts per[label] = [results, ground truths, label-correct results]"""
+    if so.get("n_scores") != 1:
+        return f"{name}: {so.get('n_scores')} classification scores instead of one"
+    if so["labels"] != [[t] for t in T]:
+        return f"{name}: accuracies are for {so['labels']}, targets {T}"
+    S = [0, 0, 0]
+    for t, a in zip(T, so["accs"]):
+        n, ngt, tp = per[t]
+        d = _chk_acc(f"{name}.accuracies[{t}]", a, tp, n, ngt, True)
+        if d:
+            return d
+        if a["num_gt"] != ngt:
+            return f"{name}: num_ground_truth of the {t} accuracy is {a['num_gt']}, {ngt} ground truths carry that label"
+        S[0] += n; S[1] += ngt; S[2] += tp
+    p, r = _frac_ratio(S[2], S[0]), _frac_ratio(S[2], S[1])
+    f1 = None if (p is None or r is None or p + r == 0) else 2 * p * r / (p + r)
+    for k, got, want in zip(("accuracy", "precision", "recall", "f1"), so["summary"], (_frac_ratio(S[2], S[0] + S[1] - S[2]), p, r, f1)):
+        d = _chk_score(f"{name}.summary.{k}", got, want, True)
+        if d:
+            return d
+    return None
+
+
 def oracle(case, out):
+    if case.get("kind") == "manager":
+        return _oracle_manager(case, out)
     if case.get("kind") == "divide":
         E, G, link = _div_specs(case)
         c2 = {"fe": case["fam"], "fg": case["fam"], "targets": case["targets"]}
@@ -794,7 +1134,16 @@ def oracle(case, out):
     E, G = case["ests"], case["gts"]
     if "err" in out:
         return f"raised {out['err']} on unique non-null uuids"
-    pairs = out["pairs"]
+    d = _oracle_pairing(case, E, G, out["pairs"])
+    if d:
+        return d
+    return _oracle_scores(case, E, G, out)
+
+
+def _oracle_pairing(case, E, G, pairs):
+    """THE pairing statement of the property on one pair of lists (case gives the label families and uuid-first setting):
+    same camera, every object at most once, generic: paired iff same uuid (and camera), traffic lights: label stage
+    then uuid stage, the number of equally-labelled pairs the largest possible"""
     P = [(i, j) for i, j in pairs if j is not None]
     Fp = [i for i, j in pairs if j is None]
     es = [i for i, _ in pairs]
@@ -833,7 +1182,7 @@ def oracle(case, out):
         best = _max_equal_pairs(ke, kg) if len(E) <= 6 and len(G) <= 6 else _class_sum(ke, kg)
         if got != best:
             return f"{got} equally-labelled pairs, but a one-to-one same-camera pairing with {best} exists"
-    return _oracle_scores(case, E, G, out)
+    return None
 
 
 def _oracle_scores(case, E, G, out, whole=True):
@@ -927,7 +1276,34 @@ def branches(case, out):
     return _branches0(case, out) + _table_branches() + (["table:witness"] if case.get("table_witness") else [])
 
 
+def _branches_manager(case, out):
+    br = ["kind:manager", f"manager:frames:{len(case['frames'])}", f"manager:targets:{len(case['targets'])}",
+          f"manager:path:{'tlr:uf=%d' % case['uf'] if case['fam'] == 'tl' else 'generic'}", f"manager:cameras:{len(case['cams'])}"]
+    if "err" in out:
+        return br + ["manager:err:" + out["err"]]
+    T = set(case["targets"])
+    if any(o[0] not in T for fr in case["frames"] for o in fr["ests"] + fr["gts"]):
+        br.append("manager:objects-outside-targets")
+    for fr, fo in zip(case["frames"], out["frames"]):
+        e, g = bool(_kept(case, fr["ests"])), bool(_kept(case, fr["gts"]))
+        br.append("manager:frame:" + ("both" if e and g else "no-est" if g else "no-gt" if e else "empty"))
+        if any(j is None for _, j in fo["pairs"]):
+            br.append("manager:frame:fp-result")
+        if fo["pairs"] and not all(fo["correct"]):
+            br.append("manager:frame:wrong-label-pair")
+        v = fo["summary"][3]
+        br.append("manager:frame.f1:" + (v if isinstance(v, str) else "1" if v == 1.0 else "0" if v == 0.0 else "frac"))
+    if not any(_kept(case, fr["ests"]) and _kept(case, fr["gts"]) for fr in case["frames"]):
+        br.append("trivial")
+    v = out["scene"]["summary"]
+    br.append("manager:scene.f1:" + (v[3] if isinstance(v[3], str) else "1" if v[3] == 1.0 else "0" if v[3] == 0.0 else "frac"))
+    br.append("manager:scene.accuracy:" + (v[0] if isinstance(v[0], str) else "1" if v[0] == 1.0 else "0" if v[0] == 0.0 else "frac"))
+    return sorted(set(br))
+
+
 def _branches0(case, out):
+    if case.get("kind") == "manager":
+        return _branches_manager(case, out)
     if case.get("kind") == "divide":
         E, G, _ = _div_specs(case)
         br = ["kind:divide", f"divide:size:{len(E)}", f"divide:targets:{len(case['targets'])}"]
@@ -990,6 +1366,19 @@ def _branches0(case, out):
 
 
 def shrink(case):
+    if case.get("kind") == "manager":
+        fs = case["frames"]
+        for k in range(len(fs)):
+            if len(fs) > 1:
+                c = dict(case); c["frames"] = fs[:k] + fs[k + 1:]
+                yield c
+        for k in range(len(fs)):
+            for side in ("ests", "gts"):
+                for i in range(len(fs[k][side])):
+                    f2 = dict(fs[k]); f2[side] = fs[k][side][:i] + fs[k][side][i + 1:]
+                    c = dict(case); c["frames"] = fs[:k] + [f2] + fs[k + 1:]
+                    yield c
+        return
     if case.get("kind") == "divide":
         rs = case["rs"]
         for i in range(len(rs)):
@@ -1034,4 +1423,6 @@ def search(rng, st, disagreements):
         cases.append(_random_case(rng, 6))
     for _ in range(6000):
         cases.append(_random_divide(rng, 6))
+    for i in range(3000):
+        cases.append(_random_scene(rng, perfect=(i % 8 == 0)))
     return cases
